@@ -25,7 +25,7 @@ import (
 // ---- cases ----
 
 type Op struct {
-	K     string `json:"k"`               // acq | rel | tr | go | work | with (N = limit of a nested limiter) | batch (N callers of batch.Invoke on the shared context; free mode)
+	K     string `json:"k"`               // acq | rel | tr | go | work | with (N = limit of a nested limiter) | batch (N callers of batch.Invoke on the shared context; free mode) | inv (batch.Invoke with argument N on the scope's context; mode cb)
 	Mode  string `json:"mode,omitempty"`  // acq: "" | cancelled (ctx cancelled before the call) | nolimiter | cancel-later
 	Leak  bool   `json:"leak,omitempty"`  // acq: the body's end does not call release
 	Panic bool   `json:"panic,omitempty"` // tr: f panics at its end; the panic is recovered around TemporarilyRelease and the goroutine goes on
@@ -36,7 +36,8 @@ type Op struct {
 type Case struct {
 	Limit     int          `json:"limit"`
 	Progs     [][]Op       `json:"progs"`
-	Mode      string       `json:"mode"`            // ctl (one atomic operation at a time) | free (Go scheduler)
+	Mode      string       `json:"mode"`            // ctl (one atomic operation at a time) | free (Go scheduler) | cb (ctl + batch.Invoke calls, replayed through the composed model Limiter/ModelBatch.v)
+	CB        *CBSpec      `json:"cb,omitempty"`    // mode cb: the batch function
 	Picks     []int        `json:"picks,omitempty"` // ctl: goroutine to run at decision k (ignored when not enabled)
 	Hold      string       `json:"hold,omitempty"`  // ctl: goroutines parked at this point run only when nothing else can
 	SchedSeed uint64       `json:"sched_seed"`
@@ -89,6 +90,19 @@ type gstate struct {
 	fPanic     bool // the function passed to TemporarilyRelease is unwinding by panic
 	lastHolder interface{}
 	gives      []*tok
+
+	// mode cb
+	vpark      string      // "" | select (creator waiting for a trigger) | done (joiner without holder waiting for doneCh): blocked inside Invoke where no hook point stands
+	vpend      string      // becomes vpark at the maxsize point that follows its join
+	vbg        interface{} // its group
+	expectWake bool        // something has happened that wakes it
+	cbPend     bool        // the next limiter.block.cas is the TemporarilyRelease call of Invoke; its model thread exists already
+	cbPendTid  int
+	cbBare     bool // joined on a context without holder: model thread cbBareTid runs f as it is
+	cbBareTid  int
+	cbWaitBg   interface{} // group whose doneCh the goroutine waits for
+	cbCall     *cbCall
+	invCancel  context.CancelFunc
 }
 
 type scope struct {
@@ -135,6 +149,7 @@ type env struct {
 	failSig  string
 	failDet  string
 	allGs    []*gstate
+	cb       *cbState
 }
 
 func (e *env) cur() *gstate {
@@ -290,6 +305,10 @@ func (e *env) runOps(gs *gstate, sc scope, ops []Op) {
 		case "batch":
 			if e.ctl == nil {
 				e.batchOp(sc, maxi(2, op.N))
+			}
+		case "inv":
+			if e.cb != nil {
+				e.invoke(gs, sc, op)
 			}
 		}
 	}
@@ -494,6 +513,10 @@ func (e *env) tempRelease(gs *gstate, sc scope, body []Op, panics bool) {
 // ---- model mirror: turns hook arrivals into labels of Limiter/Model.v (ctl mode only) ----
 
 func (e *env) newThread(lid int) int {
+	if e.cb != nil {
+		e.cb.evMu.Lock()
+		defer e.cb.evMu.Unlock()
+	}
 	t := e.nThreads[lid]
 	e.nThreads[lid]++
 	return t
@@ -503,6 +526,13 @@ func (e *env) emit(lid int, label string, code int, length int) {
 	l := "None"
 	if length >= 0 {
 		l = fmt.Sprintf("(Some %d)", length)
+	}
+	if e.cb != nil {
+		if lid != 0 {
+			e.mirrorOK = false
+		}
+		e.cbEmit(fmt.Sprintf("(CL (L.%s), OL %d %s)", label, code, l))
+		return
 	}
 	e.events = append(e.events, fmt.Sprintf("(%d, %s, %d, %s)", lid, label, code, l))
 }
@@ -525,6 +555,11 @@ func (e *env) hookCtl(point string, args ...interface{}) {
 	gs := e.cur()
 	if gs == nil || e.ctl.Aborted() {
 		return
+	}
+	if e.cb != nil {
+		// goroutines woken from inside Invoke (a creator leaving its select, callers returning after doneCh was
+		// closed) run beside the goroutine the controller released: one hook at a time
+		e.cb.hookMu.Lock()
 	}
 	e.points[point] = true
 	e.mu.Lock()
@@ -613,6 +648,16 @@ func (e *env) hookCtl(point string, args ...interface{}) {
 			break
 		}
 		lid, hid := lh[0], lh[1]
+		if gs.cbPend {
+			// the TemporarilyRelease call of batch.Invoke: the composed model created its thread at the join
+			gs.cbPend = false
+			if gs.cbCall == nil || gs.cbCall.hid != hid || lid != 0 {
+				bad()
+			}
+			gs.stack = append(gs.stack, &mth{tid: gs.cbPendTid, lid: lid, kind: "blk", hid: hid, pend: "cas"})
+			gs.blkSeen = true
+			break
+		}
 		tid := e.newThread(lid)
 		gs.stack = append(gs.stack, &mth{tid: tid, lid: lid, kind: "blk", hid: hid, pend: "cas"})
 		gs.blkSeen = true
@@ -694,7 +739,16 @@ func (e *env) hookCtl(point string, args ...interface{}) {
 		}
 		gs.stack = gs.stack[:len(gs.stack)-1]
 	}
-	if parkPoints[point] {
+	park := parkPoints[point]
+	if e.cb != nil {
+		if strings.HasPrefix(point, "batch.") {
+			park = e.cbHook(gs, point, args)
+		} else if point == "limiter.block.f" && gs.cbWaitBg != nil {
+			park = true // f is <-bg.doneCh
+		}
+		e.cb.hookMu.Unlock()
+	}
+	if park {
 		e.ctl.Park(gs.g, point, args)
 	}
 }
@@ -718,6 +772,12 @@ func (e *env) enabled(g *sched.G, gs *gstate) bool {
 			return n < limit
 		}
 		return true
+	case "limiter.block.f":
+		if e.cb != nil && gs.cbWaitBg != nil {
+			e.mu.Lock()
+			defer e.mu.Unlock()
+			return e.cb.closed[gs.cbWaitBg]
+		}
 	}
 	return true
 }
@@ -996,6 +1056,16 @@ func runCase(c *Case, fixed bool) *result {
 		e.free = sched.NewFree(c.SchedSeed, c.Perturb, append([]sched.Hold{}, c.Holds...))
 		verifhook.Set(e.hookFree)
 		res.quiescent = e.runFree()
+	} else if c.Mode == "cb" {
+		spec := c.CB
+		if spec == nil {
+			spec = &CBSpec{}
+		}
+		e.cb = newCB(e, spec)
+		e.ctl = sched.NewCtl()
+		verifhook.Set(e.hookCtl)
+		res.quiescent = e.runCB()
+		e.cbEmit("")
 	} else {
 		e.ctl = sched.NewCtl()
 		verifhook.Set(e.hookCtl)
@@ -1401,12 +1471,25 @@ func main() {
 				cases = append(cases, genWitnessFree(cr))
 			case k < 18:
 				cases = append(cases, genSharedTR(cr))
+			case k < 27:
+				cases = append(cases, genCB(cr))
+			case k < 30:
+				cases = append(cases, genCBScript(cr))
 			default:
 				cases = append(cases, genCase(cr))
 			}
 		}
 	}
 
+	var cterms []string
+	cstart := 0
+	cflush := func() {
+		if len(cterms) == 0 {
+			return
+		}
+		run.WriteCasesV(fmt.Sprintf("ccases_%d.v", cstart), []string{"Limiter.ModelBatch"}, "", "cmismatches_from_sparse", 0, cterms)
+		cterms = nil
+	}
 	var terms []string
 	start := 0
 	const shard = 150
@@ -1437,9 +1520,18 @@ func main() {
 		if e.free != nil {
 			nev = e.free.NumEvents()
 		}
+		if e.cb != nil {
+			nev = len(e.cb.events)
+		}
 		nontrivial := len(c.Progs) >= 2 && nev >= 12 &&
 			(e.stats["block-cas-failed"]+e.stats["reacquire-cas-failed"]+e.stats["release-found-not-acquired"]+
 				e.stats["cancel-while-waiting"]+e.stats["forced-release-on-deadlock"] > 0)
+		if e.cb != nil {
+			nontrivial = len(c.Progs) >= 2 && nev >= 12 && cbNontrivial(e)
+			if !e.cb.timerOK {
+				run.Hist("cb:interval-timer-not-reachable")
+			}
+		}
 		kb, _ := json.Marshal(rc)
 		run.Count(string(kb), nontrivial)
 		run.Hist("origin:" + strings.SplitN(c.Origin, ":", 2)[0])
@@ -1467,6 +1559,28 @@ func main() {
 			}
 			continue
 		}
+		if c.Mode == "cb" {
+			if !e.mirrorOK {
+				e.cb.events = append(e.cb.events, "(CL (L.LFRet 99999), OL 0 None)")
+			}
+			free, flen := "None", 0
+			if len(res.free) > 0 {
+				free = fmt.Sprintf("(Some %d)", res.free[0])
+			}
+			if len(res.finalLens) > 0 {
+				flen = res.finalLens[0]
+			}
+			ms := 0
+			if c.CB != nil {
+				ms = c.CB.MaxSize
+			}
+			cterms = append(cterms, fmt.Sprintf("(%d, mk_ccase %v %d [%d] %s %d %v %s %v)", idx, fixed, c.Limit, ms,
+				vh.CoqList(e.cb.events), flen, res.quiescent, free, e.over))
+			if len(cterms) >= 40 {
+				cflush()
+				cstart = idx + 1
+			}
+		}
 		if c.Mode == "ctl" {
 			if !e.mirrorOK {
 				// the hook sequence does not have the shape of the code the model describes: leave the
@@ -1490,5 +1604,6 @@ func main() {
 		}
 	}
 	flush()
+	cflush()
 	run.Finish()
 }
